@@ -22,9 +22,23 @@ def do(op):
     if kind.startswith("script"):
         from vf import scriptgen
 
-        extra = op.get("globals") or {}
+        import numpy as np
+
+        extra = dict(op.get("globals") or {})
+        for k, v in (op.get("globals_np") or {}).items():  # module globals that are numpy arrays (mutated IN PLACE below)
+            extra[k] = np.asarray(v[0], dtype=v[1])
         mod = scriptgen.compile_source(op["source"], op.get("opset", 18), extra_globals=dict(extra))
         fn = getattr(mod, op["name"])
+
+        def eager():
+            if not op.get("eager_input"):
+                return None
+            try:
+                r = fn(np.asarray(op["eager_input"], dtype=np.float32))
+                r = r if isinstance(r, (list, tuple)) else [r]
+                return [np.asarray(getattr(x, "value", x)).tolist() for x in r]
+            except Exception as e:  # noqa: BLE001
+                return "EXC:" + type(e).__name__
 
         def protos():
             out = [fn.to_function_proto().SerializeToString()]
@@ -42,10 +56,63 @@ def do(op):
             res["repeat_equal"] = all(a == first for a in again)
             res["function_ir_unchanged"] = str(fn.function_ir.graph) == ir_before
         if kind == "script_mutate_globals":
+            e0 = eager()
             for k, v in (op.get("mutate") or {}).items():
                 mod.__dict__[k] = v
+            for k, (idx, val) in (op.get("mutate_inplace") or {}).items():
+                mod.__dict__[k][idx] = val  # the array object that the script captured is modified in place
             res["after_mutation_equal"] = protos() == first
+            if e0 is not None and not isinstance(e0, str):
+                res["eager_after_mutation_equal"] = eager() == e0
         return res
+    if kind == "rewrite_custom":
+        # a user rule whose replacement uses operators of several domains the model does not import yet (set iteration order of the
+        # new imports), applied in the main graph, inside an If branch or inside a model-local function
+        from onnx import TensorProto as TP
+        from onnx import helper
+
+        from onnxscript.rewriter import pattern
+        from onnxscript.rewriter import rewrite as rw
+
+        doms = [(d, v) for d, v in op["domains"]]
+
+        def tgt(op_, x):
+            return op_.Neg(op_.Abs(x))
+
+        def rep(op_, x):
+            for i, (d, v) in enumerate(doms):
+                x = getattr(op_, f"Custom{i}")(x, _domain=d, _version=v)
+            return x
+
+        rule = pattern.RewriteRule(tgt, rep, as_function=bool(op.get("as_function")))
+        body = [helper.make_node("Abs", ["x"], ["t"]), helper.make_node("Neg", ["t"], ["y"])]
+        fx = helper.make_tensor_value_info("x", TP.FLOAT, [3])
+        fy = helper.make_tensor_value_info("y", TP.FLOAT, [3])
+        functions = []
+        where = op.get("where", "main")
+        if where == "main":
+            g = helper.make_graph(body, "g", [fx], [fy])
+        elif where == "if":
+            br = lambda n: helper.make_graph([helper.make_node("Abs", ["x"], [n + "t"]), helper.make_node("Neg", [n + "t"], [n + "y"])], n, [], [helper.make_tensor_value_info(n + "y", TP.FLOAT, [3])])  # noqa: E731
+            g = helper.make_graph([helper.make_node("If", ["c"], ["y"], then_branch=br("a"), else_branch=br("b"))], "g",
+                                  [helper.make_tensor_value_info("c", TP.BOOL, []), fx], [fy])
+        else:
+            functions = [helper.make_function("local", "F", ["x"], ["y"], body, [helper.make_opsetid("", 18)])]
+            g = helper.make_graph([helper.make_node("F", ["x"], ["y"], domain="local")], "g", [fx], [fy])
+        m = helper.make_model(g, opset_imports=[helper.make_opsetid("", 18)] + ([helper.make_opsetid("local", 1)] if functions else []), functions=functions, ir_version=8)
+        return {"d": digest(rw(m, [rule]).SerializeToString())}
+    if kind == "bad_pattern":
+        # a pattern constructor that raises inside pattern_builder / a rule whose check stashes state then fails
+        from onnxscript.rewriter import pattern
+
+        def pat(op_, x):
+            raise RuntimeError("boom inside pattern")
+
+        try:
+            pattern.RewriteRule(pat, lambda op_, x: op_.Identity(x))
+        except RuntimeError:
+            pass
+        return {"d": "bad_pattern_done"}
     model = onnx.load_from_string(base64.b64decode(op["model"]))
     if op.get("reopset"):  # history only: the same graph declared under another opset
         for imp in model.opset_import:
@@ -76,18 +143,6 @@ def do(op):
 
         vc.convert_version(model, op["target"], fallback=op.get("fallback", False))
         return {"d": digest(model.SerializeToString())}
-    if kind == "bad_pattern":
-        # a pattern constructor that raises inside pattern_builder / a rule whose check stashes state then fails
-        from onnxscript.rewriter import pattern
-
-        def pat(op_, x):
-            raise RuntimeError("boom inside pattern")
-
-        try:
-            pattern.RewriteRule(pat, lambda op_, x: op_.Identity(x))
-        except RuntimeError:
-            pass
-        return {"d": "bad_pattern_done"}
     raise ValueError(kind)
 
 
